@@ -8,7 +8,7 @@ outcomes(facts, key) enumerates the acyclic entry->return paths of a body and gi
   ret     : models.classify_return of the value of the return place on that path
 Diverging paths (ending in a call without return target, e.g. panic) are reported with ret ("diverge", callee).
 """
-from .core import AnchorError, callee_name, strip
+from .core import AnchorError, callee_name, strip, _cast_kind
 from .sem import norm, nshow, atom_of, is_dropflag_cond
 from . import models
 
@@ -246,7 +246,7 @@ class PathEval:
         if r in ("ref", "rawptr"):
             return ("ref", rv["bk"] == "mut" or "Mut" in rv["bk"], self.place(rv["place"]))
         if r == "cast":
-            return ("cast", rv["kind"], self.op(rv["op"]))
+            return ("cast", _cast_kind(rv), self.op(rv["op"]))
         if r == "binop":
             return ("binop", rv["bop"], self.op(rv["a"]), self.op(rv["b"]))
         if r == "unop":
